@@ -317,7 +317,7 @@ func child(h history) {
 			} else if n := listenFDCount(); n != preFDs {
 				st.Problems = append(st.Problems, fmt.Sprintf("descriptors of listening sockets: %d before, %d after", preFDs, n))
 			}
-			if a.Kind == "sigusr1" { // the SIGUSR1 handler owns hook backup/restore; direct API calls (validate, Instance.Restart) do not
+			if a.Kind == "sigusr1" || a.Kind == "restart" { // a failed reload, by signal or through Instance.Restart (validation alone is not a reload)
 				if post := hooks(); post != preHooks {
 					st.Problems = append(st.Problems, fmt.Sprintf("event hooks changed: before [%s] after [%s]", preHooks, post))
 				}
